@@ -102,6 +102,14 @@ impl Property for C03 {
             let pk = key.lib().to_public_key().map_err(|e| failure("to_public_key", e.to_string(), "Ok"))?;
             ensure_eq_hex!(pk.to_bytes().map_err(|e| failure("pubkey_bytes", e.to_string(), "Ok"))?, key.pub_bytes(), "public_key_bytes");
             ensure_eq!(lib_call("Transaction::verify", || tx2.verify(&pk, &sig))?, true, "transaction_verify_own_signature");
+            // "verifies under the signer's public key": a verification that also succeeds under another key verifies nothing
+            {
+                let other = keys::Key { d: keys::Scalar::Bytes(secp::be32(&((key.d.value() % (secp::n() - num_bigint::BigUint::from(2u8))) + num_bigint::BigUint::from(1u8))).to_vec()), compressed: key.compressed };
+                if other.d.value() != key.d.value() {
+                    let opk = other.lib().to_public_key().map_err(|e| failure("to_public_key", e.to_string(), "Ok"))?;
+                    ensure_eq!(lib_call("Transaction::verify(other key)", || tx2.verify(&opk, &sig))?, false, "transaction_verify_other_key");
+                }
+            }
             // caller-supplied nonce: r = (kG).x mod n and the signature verifies over the same digest
             let k = keys::Key { d: keys::Scalar::Pow2 { k: (c.value % 250) as u8 + 2, delta: 1 }, compressed: true };
             let mut tx3 = parse_fresh(&r)?;
